@@ -615,7 +615,7 @@ def rotate_bitmaps_to_roots(bitmaps, roots):
     abs_bitmaps = []
     for bitmap, chord_root in zip(bitmaps, roots):
         abs_bitmaps.append(rotate_bitmap_to_root(bitmap, chord_root))
-    return np.asarray(abs_bitmaps)
+    return np.asarray(abs_bitmaps).reshape(np.shape(bitmaps))
 
 
 # --- Comparison Routines ---
